@@ -218,7 +218,9 @@ Execute(st, a) ==
 (* a hub delivery under a fresh message id, approved for the service and executed at once (instances
    whose subject is not the approval table use it to feed inbound messages without tracking ids) *)
 Deliver(st, a) ==
-    ExecuteCore(st, [srcChain |-> HubChain, srcAddr |-> HubAddr, payload |-> a.payload], TRUE, st, "fresh")
+    ExecuteCore(st, [srcChain |-> IF "srcChain" \in DOMAIN a THEN a.srcChain ELSE HubChain,
+                     srcAddr |-> IF "srcAddr" \in DOMAIN a THEN a.srcAddr ELSE HubAddr,
+                     payload |-> a.payload], TRUE, st, "fresh")
 
 -----------------------------------------------------------------------------
 (* actions of other parties on the tokens (instances use them to build histories) *)
